@@ -13,7 +13,9 @@ def run(ctx, replay=None):
                 "suite must record rate = 0 when the driving force is <= 0 (KWN_Trace.tla); function level: sign/zero/finite classes of barrier, Zeldovich, "
                 "impingement, incubation, rate over dG in {<0, 0, >0...}, scalar vs array, Rcrit >= Rmin, incubation factor in [0,1] and rising, rate "
                 "non-decreasing in dG. (j) available sites non-negative and non-increasing with occupation for 5 site types x 2 competing phases. "
-                "Clemm-Fisher identities on a k-grid. Relations are judged by Relations.tla.")
+                "Clemm-Fisher identities on a k-grid. Relations are judged by Relations.tla. (pools, extension) SitePools.tla: the site pools are derived from molar volume, "
+                "composition, grain size and dislocation density, cached, and the bulk pool can be overridden; TLC explores all histories of setters and reads (ReadIsCurrent, "
+                "CacheNeverStale, UserBulkKept); all read-set-read triples and seeded histories on real MatrixParameters objects are trace-validated (SitePools_Trace.tla).")
     ctx.assumptions = ["real-valued identities/monotonicities enter as lt/eq/gt (observation level, see DESIGN 3/C14); rtol 1e-9"]
     res = run_tlc("NucParams", "MC_NucParams.cfg", deadlock=False, timeout=900)
     ctx.add_tlc(res, "NucParams.tla histories <= 5")
@@ -36,6 +38,7 @@ def run(ctx, replay=None):
     canary(ctx, corrupt, "C14:rate=0-when-dG<=0")
     judge(ctx, ["C14:"])
     sites_part(ctx, D)
+    pools_part(ctx, D)
     hist = D.gen_factor_histories(ctx.rng, ctx.tier)
     traces = [D.factor_history(h, "direct" if i % 2 == 0 else "precipitate") for i, h in enumerate(hist)]
     labels = ["factors:%s" % [o[0] if o[0] != "read" else o[1] for o in h] for h in hist]
@@ -53,6 +56,45 @@ def run(ctx, replay=None):
             ctx.violation("c14:trace-not-consumed", "%s not consumed" % lab, {"trace": lab})
         for f in v["fails"]:
             ctx.violation("c14:%s:%s" % (f[0], f[1].split(",")[0]), "%s: %s violated at %s (observed %s, stated %s)" % (lab[:80], f[0], f[1], f[2], f[3]), {"trace": lab, "fail": f})
+
+
+POOLMODE = "fixed"      # "asbuilt": a change of the matrix molar volume does not invalidate the cached pools (before the repair)
+
+
+def pools_part(ctx, D):
+    """the pools themselves follow the matrix parameters: SitePools.tla model-checked, real MatrixParameters objects trace-validated"""
+    import copy
+    consts = ["CONSTANTS", "  Vms = {1, 2}", "  X0s = {1, 2}", "  Grains = {1, 2}", "  Disls = {1, 2}", "  Bulks = {7}"]
+    cfg = T.write_cfg("sitepools_mc", ["SPECIFICATION Spec"] + consts + ["  MaxOps = %d" % (5 if ctx.tier == "quick" else 6), '  Mode = "%s"' % POOLMODE,
+                                       "INVARIANT ReadIsCurrent", "INVARIANT CacheNeverStale", "PROPERTY UserBulkKept"])
+    res = run_tlc("SitePools", cfg, deadlock=False, timeout=1500)
+    ctx.add_tlc(res, "SitePools.tla: all histories of setters and reads")
+    if res.violated:
+        ctx.tlc_violation(res, "SitePools")
+    cfgv = T.write_cfg("sitepools_vac", ["SPECIFICATION Spec"] + consts + ["  MaxOps = 4", '  Mode = "asbuilt"', "INVARIANT CacheNeverStale"])
+    rv = run_tlc("SitePools", cfgv, deadlock=False, timeout=600)
+    if rv.violated != "CacheNeverStale":
+        raise MachineryError("vacuity: the as-built volume setter does not violate CacheNeverStale in SitePools.tla")
+    hist = D.gen_pool_histories(ctx.rng, ctx.tier)
+    traces = [D.pool_history(h, grain0=1 + i % 2, disl0=1 + (i // 2) % 2) for i, h in enumerate(hist)]
+    can = copy.deepcopy(next(t for t in traces if any(e.get("op") == "read" and e.get("arg") == "disl" for e in t[1:])))
+    for e in can[1:]:
+        if e.get("op") == "read" and e.get("arg") == "disl":
+            e["got"] = [3 - e["got"][0] if e["got"][0] in (1, 2) else 1, e["got"][1]]
+            break
+    reached, r = T.validate("SitePools_Trace", consts + ["  MaxOps = 0", '  Mode = "%s"' % POOLMODE], traces + [can], "c14_pools")
+    ctx.add_tlc(r, "SitePools_Trace over %d histories" % len(traces))
+    if r.violated or reached is None:
+        raise MachineryError("SitePools_Trace validation failed")
+    if not reached[-1]["fails"]:
+        raise MachineryError("binding self-test failed: corrupted pool read accepted")
+    for h, ev, v in zip(hist, traces, reached):
+        ctx.replayed += len(ev) - 1
+        ctx.case(["pools"] + [list(o) for o in h], nontrivial=any(e.get("op") == "read" for e in ev[1:]), sample={"history": h, "events": ev[1:4]} if len(ctx.samples) < 7 else None)
+        if v["l"] != len(ev) + 1:
+            ctx.violation("c14:pools-trace-not-consumed", "pool history %s not consumed at event %d" % (h, v["l"]), {"history": h, "events": ev})
+        for f in v["fails"]:
+            ctx.violation("c14:pools:%s" % f[0], "pool history %s: clause %s fails at call %d" % (h, f[0], f[1] - 1), {"history": h, "events": ev, "fail": f})
 
 
 def sites_part(ctx, D):
